@@ -1013,7 +1013,7 @@ void Analyser::AnalyserImpl::analyseNode(const XmlNodePtr &node,
         // Have our equation track the (ODE) variable (by ODE variable, we mean
         // a variable that is used in a "diff" element).
 
-        if (node->parent()->firstChild()->isMathmlElement("diff")) {
+        if (mathmlChildNode(node->parent(), 0)->isMathmlElement("diff")) {
             equation->addOdeVariable(internalVariable(variable));
         } else if (!node->parent()->isMathmlElement("bvar")) {
             equation->addVariable(internalVariable(variable));
